@@ -187,13 +187,13 @@ def groupGetIdxVals (vals : List Idx) : Option (List Idx) :=
   | .str _ :: _ => some vals
   | .num _ :: _ => vals.mapM coerceNum
 
-/-- `DataSelect.v` on index fields: the optional value when given, else the fallback; `np.isnan` is applied to
-every given optional value (`none` = `TypeError` on a string) -/
+/-- `DataSelect.v` on index fields: the optional value when given, else the fallback (`np.isnan` is applied to floats
+only since the repair of `dataselect-string-idx`; on the pinned tree a string raised `TypeError`).  The result type is
+kept an `Option` for the driver's protocol; it is always `some`. -/
 def dataSelect (opt fallback : List (Option Idx)) : Option (List (Option Idx)) :=
-  (opt.zip fallback).mapM (fun p => match p.1 with
-    | none => some p.2
-    | some (.num k) => some (some (.num k))
-    | some (.str _) => none)
+  some ((opt.zip fallback).map (fun p => match p.1 with
+    | none => p.2
+    | some v => some v))
 
 /-! ### Phase 2 : external variables;  Phase 3 : RHS addresses of external variables, `flags.address` -/
 
